@@ -130,6 +130,11 @@ pub struct Case {
     /// pipes land on descriptor 0
     #[serde(default)]
     pub closed_stdin: bool,
+    /// 1: interactive shell (`-i -c`), 2: job-control shell (`-m`): the same
+    /// data must arrive (the shell's own descriptors >= 10 are left out of
+    /// the final listing)
+    #[serde(default)]
+    pub mode: u8,
 }
 
 fn sizes() -> Vec<u32> {
@@ -307,10 +312,12 @@ pub fn generate(rng: &mut Rng, tier: Tier) -> Case {
         }
     };
     let closed_stdin = matches!(kind, Kind::Pipe { .. }) && rng.below(5) == 0;
+    let mode = *rng.pick(&[0u8, 0, 0, 0, 1, 2]);
     Case {
         kind,
-        dash_c: rng.bool(),
+        dash_c: rng.bool() || mode == 1,
         closed_stdin,
+        mode,
     }
 }
 
@@ -589,6 +596,11 @@ fn spec_of(c: &Case) -> ScriptSpec {
     ScriptSpec {
         script: render(c).0,
         dash_c: c.dash_c,
+        options: match c.mode {
+            1 => vec!["-i".into()],
+            2 => vec!["-m".into()],
+            _ => Vec::new(),
+        },
         ..Default::default()
     }
 }
@@ -766,6 +778,7 @@ fn pipe_failure(hist: &crate::pipes::PHist, class: String, detail: String) -> Fa
             kind: Kind::Pipes { hist: hist.clone() },
             dash_c: false,
             closed_stdin: false,
+            mode: 0,
         })
         .unwrap(),
         cfg: SimConfig::default(),
@@ -783,6 +796,7 @@ fn waker_failure(hist: &crate::wakers::WHist, class: String, detail: String) -> 
             kind: Kind::Wakers { hist: hist.clone() },
             dash_c: false,
             closed_stdin: false,
+            mode: 0,
         })
         .unwrap(),
         cfg: SimConfig::default(),
@@ -791,8 +805,32 @@ fn waker_failure(hist: &crate::wakers::WHist, class: String, detail: String) -> 
     }
 }
 
+/// (an interactive or job-control shell keeps a descriptor >= 10 of its own)
+fn norm_fds(c: &Case, mut obs: Observed) -> Observed {
+    if c.mode != 0 {
+        let mut out = String::new();
+        for l in obs.stdout.split_inclusive('\n') {
+            if l.starts_with("fds:") {
+                let kept: Vec<&str> = l
+                    .trim_end_matches('\n')
+                    .split(' ')
+                    .filter(|t| t.trim_end_matches('c').parse::<u32>().map_or(true, |n| n < 10))
+                    .collect();
+                out.push_str(&kept.join(" "));
+                if l.ends_with('\n') {
+                    out.push('\n');
+                }
+            } else {
+                out.push_str(l);
+            }
+        }
+        obs.stdout = out;
+    }
+    obs
+}
+
 fn run_crash(c: &Case, cfg: &SimConfig, decider: Decider) -> Observed {
-    run_script_with(&spec_of(c), cfg, decider, |_| {}, crate::shellrun::crash_env(cfg))
+    norm_fds(c, run_script_with(&spec_of(c), cfg, decider, |_| {}, crate::shellrun::crash_env(cfg)))
 }
 
 fn run_one(
@@ -802,7 +840,7 @@ fn run_one(
     inject: u32,
 ) -> (Observed, Option<(String, String, String)>) {
     let (_, expected) = render(c);
-    let obs = run_script_with(&spec_of(c), cfg, decider, |_| {}, signal_env(inject));
+    let obs = norm_fds(c, run_script_with(&spec_of(c), cfg, decider, |_| {}, signal_env(inject)));
     let v = check_run(c, &expected, &obs);
     (obs, v)
 }
@@ -844,7 +882,7 @@ impl Prop for C14 {
     }
     fn assumptions(&self) -> Vec<String> {
         vec![
-            "decided relative to the repository's simulated kernel (VirtualSystem pipes: PIPE_BUF atomicity, PIPE_SIZE capacity) Added kinds: two processes writing PIPE_BUF-sized records to one pipe (no record torn), two processes each writing a payload beyond the pipe capacity in large chunks to one open file description (pipeline and command substitution; both payloads arrive completely, each in its own order), two processes reading one pipe (sums add up); crash-injection runs (liveness); every program ends by printing the shell's descriptor table; engine (p): 20/60 seeded histories per case on one pipe of the simulated kernel (read, write, dup, close, O_NONBLOCK switches, zero-timeout select; sizes around PIPE_BUF and the capacity) against a POSIX pipe model - results byte for byte, a blocked operation is woken exactly when it can proceed, select agrees with readiness; engine (w): 20/60 seeded histories per case on the real WakerSet / ScheduledWakerQueue against a reference model (cells dropped, emptied, re-filled at arbitrary points).".into(),
+            "decided relative to the repository's simulated kernel (VirtualSystem pipes: PIPE_BUF atomicity, PIPE_SIZE capacity) Added kinds: two processes writing PIPE_BUF-sized records to one pipe (no record torn), two processes each writing a payload beyond the pipe capacity in large chunks to one open file description (pipeline and command substitution; both payloads arrive completely, each in its own order), two processes reading one pipe (sums add up); a third of the cases run in an interactive (`-i`) or job-control (`-m`) shell - same data; crash-injection runs (liveness); every program ends by printing the shell's descriptor table; engine (p): 20/60 seeded histories per case on one pipe of the simulated kernel (read, write, dup, close, O_NONBLOCK switches, zero-timeout select; sizes around PIPE_BUF and the capacity) against a POSIX pipe model - results byte for byte, a blocked operation is woken exactly when it can proceed, select agrees with readiness; engine (w): 20/60 seeded histories per case on the real WakerSet / ScheduledWakerQueue against a reference model (cells dropped, emptied, re-filled at arbitrary points).".into(),
             "SIGPIPE is not modelled by the simulated kernel (EPIPE only); the early-exit case therefore checks liveness and prefix integrity only".into(),
             "sampling of schedules and sizes, not enumeration".into(),
         ]
@@ -1014,6 +1052,7 @@ impl Prop for C14 {
                     kind: k,
                     dash_c: c.dash_c,
                     closed_stdin: c.closed_stdin,
+                    mode: c.mode,
                 })
                 .unwrap(),
             )
